@@ -127,6 +127,12 @@ func suiteDisp(r *rng, n int) {
 					c.owner[hc] = key
 					created = 1
 				}
+				// some of the new entries start a fetch that is still in flight when they become the shard's oldest
+				// key: eviction treats them like any other entry
+				if created == 1 && cr.chance(35) {
+					hc.Get()
+					stat("get-fetch-started")
+				}
 				emit("disp", "get", hx(c.name), hx(key), fmt.Sprint(h), "=>", itoa(int64(idx)), itoa(int64(created)), hx(c.owner[hc]))
 				stat("get")
 				if created == 1 {
